@@ -1,7 +1,7 @@
 SPECIFICATION Spec
 CONSTANTS
-  Scen = "handshake"
-  MaxChunks = 3
+  Scen = "response"
+  MaxChunks = 2
   Gen = TRUE
   EmptyIsFlush = FALSE
 INVARIANT ConsumerExact
